@@ -59,11 +59,20 @@ CONFIGS = {
     'bad_a16asym': _c(act=_t(16, False), w=_t(8, True, 'CHANNELWISE'), cp='INTEGER'),
     'bad_wo8_noxd': _c(w=_t(8, True, 'CHANNELWISE'), cp='FLOAT', xd=False),
     'bad_w2': _c(w=_t(2, True, 'TENSORWISE'), cp='INTEGER'),
+    # block_size set although the granularity is not BLOCKWISE (legal dataclass values; the policy
+    # compares whole configs, so these are refused for a specific operator and skipped under '*'):
+    'drq8_ch_b32': _c(w=_t(8, True, 'CHANNELWISE', block=32), cp='INTEGER'),
+    'wo8_t_b16': _c(w=_t(8, True, 'TENSORWISE', block=16), cp='FLOAT', xd=True),
+    'a8w8_actb8': _c(act=_t(8, False, block=8), w=_t(8, True, 'CHANNELWISE'), cp='INTEGER'),
+    # genuine blockwise (not in the default policy):
+    'wo4_blk32': _c(w=_t(4, True, 'BLOCKWISE', block=32), cp='FLOAT', xd=True),
+    'skip_wo4_blk32': _c(w=_t(4, True, 'BLOCKWISE', block=32), cp='FLOAT', xd=True, skip=True),
     # accepted only because checks are skipped:
     'skip_bad_w16': _c(w=_t(16, True, 'TENSORWISE'), cp='INTEGER', skip=True),
     'skip_a8w8': _c(act=_t(8, False), w=_t(8, True, 'CHANNELWISE'), cp='INTEGER', skip=True),
 }
 CONFIG_NAMES = list(CONFIGS)
+ODD_CONFIGS = ['drq8_ch_b32', 'wo8_t_b16', 'a8w8_actb8', 'wo4_blk32', 'skip_wo4_blk32']
 STATIC_CONFIGS = ['a8w8', 'a8w8_t', 'a8sw8', 'a16w8', 'a8w4', 'a16w4']
 WEIGHT_CONFIGS = ['wo8_ch', 'wo8_asym', 'wo4_t', 'wo4_ch', 'drq8_ch', 'drq8_t', 'drq4_ch']
 GOOD_FOR = {
